@@ -256,11 +256,37 @@ def affine_map(r, data, exact=False):
 # --------------------------------------------------------------------------
 # family cc: cross_correlation, symmetrize_by_absmax, pure-Python twin
 # --------------------------------------------------------------------------
+def used_object(ctx, CouplingAnalysis, data, cid, salt=0):
+    """A CouplingAnalysis object that has (in half of the cases) already
+    answered other queries: every estimate has to equal its reference
+    whatever was asked of the same object before."""
+    ca = CouplingAnalysis(data.copy(), silence_level=3)
+    r = ctx.rng("used", cid, salt)
+    if r.random() < 0.5:
+        return ca
+    T = data.shape[0]
+    for _ in range(int(r.integers(1, 3))):
+        tau = int(r.integers(0, max(1, min(8, T - 3)) + 1))
+        what = int(r.integers(0, 4))
+        if what == 0:
+            ctx.call(ca.cross_correlation, tau_max=tau, lag_mode="all")
+        elif what == 1:
+            ctx.call(ca.cross_correlation, tau_max=tau, lag_mode="max")
+        elif what == 2:
+            ctx.call(ca.mutual_information, tau_max=tau, estimator="binning",
+                     bins=3, lag_mode="all")
+        elif tau >= 1:
+            ctx.call(ca.information_transfer, tau_max=tau, estimator="gauss",
+                     lag_mode="max")
+    ctx.count("objects_used_before")
+    return ca
+
+
 def check_cc_core(ctx, CouplingAnalysis, data, tau_max, cid, case,
                   count=True):
     """'all' and 'max' against the reference.  Returns (lib_all, S, L, R) or
     None."""
-    ca = CouplingAnalysis(data.copy(), silence_level=3)
+    ca = used_object(ctx, CouplingAnalysis, data, cid)
     ok, A = ctx.call(ca.cross_correlation, tau_max=tau_max, lag_mode="all")
     ctx.evals()
     if not ok:
@@ -378,7 +404,7 @@ def fam_cc(ctx, mods, r, k, cid):
         ctx.sample({"family": "cc", "T": T, "N": N, "tau_max": tau_max,
                     "tags": tags, "lib[0,1,:]": A[0, 1], "ref[0,1,:]":
                     R[0, 1], "max": [float(S[0, 1]), int(L[0, 1])]})
-    ca = CouplingAnalysis(data.copy(), silence_level=3)
+    ca = used_object(ctx, CouplingAnalysis, data, cid)
     check_symmetrize(ctx, ca, S, L, cid, case, "cc-output")
     # synthetic similarity/lag matrices with ties and signs
     Sq = (r.integers(-8, 9, size=(N, N)) / 8.0).astype(np.float32)
@@ -559,7 +585,7 @@ def fam_mi(ctx, mods, r, k, cid):
     M = T - tau_max
     case = {"T": T, "N": N, "tau_max": tau_max, "tags": tags,
             "data": data if data.size <= 60 else None}
-    ca = CouplingAnalysis(data.copy(), silence_level=3)
+    ca = used_object(ctx, CouplingAnalysis, data, cid)
     constw = has_const_window(data, tau_max)
     # ------------------------------ gauss -------------------------------
     name = f"{CA}.mutual_information:gauss"
@@ -816,7 +842,7 @@ def fam_knn(ctx, mods, r, k, cid):
                 ctx.count("knn_rejected_constant_window")
                 return
     name = f"{CA}.mutual_information:knn"
-    ca = CouplingAnalysis(data.copy(), silence_level=3)
+    ca = used_object(ctx, CouplingAnalysis, data, cid)
     constw = has_const_window(data, tau_max)
     np.random.seed(k)
     ok, K = ctx.call(ca.mutual_information, tau_max=tau_max,
@@ -911,7 +937,7 @@ def fam_it(ctx, mods, r, k, cid):
     case = {"T": T, "N": N, "tau_max": tau_max, "past": past,
             "cond_mode": cond_mode, "tags": tags,
             "data": data if data.size <= 60 else None}
-    ca = CouplingAnalysis(data.copy(), silence_level=3)
+    ca = used_object(ctx, CouplingAnalysis, data, cid)
     constw = has_const_window(data, tau_max + past)
     RI = ref.it_gauss_all(data, tau_max, past, cond_mode)
     kw = dict(tau_max=tau_max, estimator="gauss", past=past,
